@@ -29,7 +29,7 @@ NOT decided: greedy chunk boundaries and equality of the accept set with an inde
 
 ASSUMPTIONS = ['the canonical format is the one described in the property (252 / 64008 / radix 253 / FE FD)']
 
-FLOORS = {'R7.1': 5, 'R7.2': 6, 'R7.3': 7, 'R7.4': 14, 'R7.5': 7, 'R7.6': 23}
+FLOORS = {'R7.1': 5, 'R7.2': 6, 'R7.3': 7, 'R7.4': 14, 'R7.5': 7, 'R7.6': 12}   # (R7.6 counts integer casts: `as` respelled `From` removes instances without removing meaning)
 
 
 def r7_1(cx):
